@@ -234,6 +234,18 @@ def _check_merchant_migration(config: dict, config_dir: str, quiet: bool = False
 
     # New .rules format
     if merchants_format == 'new':
+        # A rules file that does not load must be reported, not treated as "no rules"
+        # (get_all_rules() swallows parse errors)
+        if merchants_file.endswith('.rules'):
+            from pathlib import Path
+            from .merchant_engine import load_merchants_file, MerchantParseError
+            try:
+                load_merchants_file(Path(merchants_file), match_mode=rule_mode)
+            except MerchantParseError as e:
+                print(f"Error: cannot load merchant rules from {merchants_file}", file=sys.stderr)
+                print(f"  {e}", file=sys.stderr)
+                print(f"\nFix the rules file (see 'tally diag') and run again.", file=sys.stderr)
+                sys.exit(1)
         rules = get_all_rules(merchants_file, match_mode=rule_mode)
         if not quiet:
             print(f"Loaded {len(rules)} categorization rules from {merchants_file}")
